@@ -141,6 +141,29 @@ theorem outcome_codes :
     failWith .authentication = .response ⟨407, [.challenge]⟩ := by
   simp [failWith, statusOf, warnOf]
 
+/-- **With a SOCKS5 upstream the codes are the same**: "network unreachable" and "host unreachable" from the
+upstream are both reported as 502 / 301, "TTL expired" as 502 / 302, a refused connection and every other
+failure as 502 / 300 - and only the success reply gives 200 -/
+theorem socks_upstream_codes (a : SocksAnswer) :
+    (match socksOutcome a with
+     | .ok => ok200
+     | .err e => failWith e
+     | .delayedOk _ => ok200) =
+    (match a with
+     | .reply 0 => .response ⟨200, []⟩
+     | .reply 3 => .response ⟨502, [.warn 301]⟩
+     | .reply 4 => .response ⟨502, [.warn 301]⟩
+     | .reply 6 => .response ⟨502, [.warn 302]⟩
+     | _ => .response ⟨502, [.warn 300]⟩) := by
+  cases a with
+  | closed => simp [socksOutcome, failWith, statusOf, warnOf]
+  | malformed => simp [socksOutcome, failWith, statusOf, warnOf]
+  | reply c =>
+    match c with
+    | 0 => simp [socksOutcome, ok200]
+    | 1 | 2 | 3 | 4 | 5 | 6 => simp [socksOutcome, failWith, statusOf, warnOf]
+    | n + 7 => simp [socksOutcome, failWith, statusOf, warnOf]
+
 /-- a passed CONNECT to an ordinary destination: 200 iff the connection attempt succeeded in time -/
 theorem connect_result (r : Req) (hm : r.method = .connect) (policy : Policy) (authn : Option Authn) (env : Env)
     (fa : Option Source) (hg : gate (authInfo r.authHdr) policy authn = .pass fa) (hk : promote r = .tcp)
